@@ -32,7 +32,7 @@ func init() {
 func (p c02) ID() string { return p.id }
 func (p c02) Rule() string {
 	common := "sources: the operator-pair table (every infix/prefix/postfix/call/index/lambda parent x every child kind x side, with and without parentheses, and every pair of 40 statement forms; enumerated completely in both tiers), " +
-		"grammar-generated programs (gensyn, whole grammar incl. comments, macros, all literal spellings), the shipped corpus, byte/token mutations of both that the parser still accepts, each also wrapped as a function body; normal and compact mode. " +
+		"grammar-generated programs (gensyn, whole grammar incl. comments, macros, all literal spellings), the shipped corpus, byte/token mutations of both that the parser still accepts, each also wrapped as a function body; 13 nesting constructs at every depth 1..130 and 18 expression constructs at 16 depths around the parser's nesting limit (2400..10001); normal and compact mode. " +
 		"non-trivial = accepted source with >=1 non-comment statement; distinct = distinct canonical trees (canon dump hashed with the mode). "
 	if p.id == "C02" {
 		return common + "Oracle: canon(parse(print_M(parse S))) = canon(parse S) via three observation points (PrettyPrint, repl.EvalOne FormatOnly, object.Function.Inspect)."
